@@ -89,6 +89,19 @@ def run(f, fixture, rep, cfg, tier):
         okc = any("archive_name(rpm::payload::CpioEntry::name(" in c and "<Cpio>.0" in c for c in caps)
         rep.check(okp and okc, "R1", "name-predicate", "the predicate compares the header path with the cpio entry's name (both normalised)",
                   "the name predicate does not compare the header path with the archive entry's name (captures: %s)" % [c[:100] for c in caps], it.span)
+        # the normalisation may only remove the "./" and "/" prefixes (anything wider makes distinct names collide)
+        an = [b for b in f.body_list if b.path.endswith("package::archive_name")]
+        if rep.check(len(an) == 1, "R1", "normaliser|exists", "one name normaliser", "the name normaliser archive_name was not found (anchor)"):
+            ta = TermBuilder(an[0])
+            pats = []
+            for c in an[0].calls():
+                if re.search(r"<impl str>::(trim_start_matches|strip_prefix|trim_matches|trim_start|trim_left_matches|replace|trim_end_matches)$", c.decl):
+                    pats.append((c.decl.rsplit("::", 1)[-1], (c.args[1].get("k", {}).get("s") if len(c.args) > 1 and "k" in c.args[1] else render(ta.term(c.args[1])) if len(c.args) > 1 else "")))
+                elif c.local is False and "str" in c.decl and not re.search(r"(as_ref|deref|len|is_empty)$", c.decl):
+                    pats.append((c.decl.rsplit("::", 1)[-1], "?"))
+            allowed = {("trim_start_matches", '"./"'), ("trim_start_matches", "'/'"), ("strip_prefix", '"./"'), ("strip_prefix", "'/'"), ("strip_prefix", '"/"'), ("trim_start_matches", '"/"')}
+            rep.check(bool(pats) and set(pats) <= allowed, "R1", "normaliser|patterns", "names are normalised by removing only the './' and '/' prefixes",
+                      "archive_name normalises with %s: more than the './' / '/' prefixes is removed, so distinct header paths (e.g. /.profile and /profile) compare equal" % pats, an[0].span)
         fin = [c for c in it.calls() if c.decl.endswith("payload::Reader::<R>::finish")]
         rep.check(len(fin) == 1, "R1", "finish", "the entry is finished (padding skipped) before the next one", "FileIterator::next calls finish() %d times" % len(fin), it.span)
 
@@ -225,6 +238,26 @@ def run(f, fixture, rep, cfg, tier):
         buf = render(t.term(inner[0].args[1])) if inner else ""
         rep.check("std::cmp::Ord::min(" in buf and "SubWithOverflow(self.file_size, " in buf, "R4", "read-limit", "reads are limited to the bytes left of this entry",
                   "the inner read buffer is %s" % buf[:200], rr[0].span)
+
+    # accounting: the per-entry counters advance by what the inner call actually transferred
+    for (trait, callee, field) in (("std::io::Read", "std::io::Read::read", "bytes_read"), ("std::io::Write", "std::io::Write::write", "written")):
+        bs = [b for b in f.body_list if b.impl_trait == trait and re.search(r"payload::(Reader|Writer)<", b.impl_self or "") and b.name in ("read", "write")]
+        for b in bs:
+            t = TermBuilder(b)
+            n = 0
+            for bb in b.reachable():
+                for st in b.stmts(bb):
+                    if st["k"] == "assign" and st["lhs"]["p"] and any(isinstance(p, dict) and p.get("n") == field for p in st["lhs"]["p"]) and st["rv"]["r"] == "use":
+                        n += 1
+                        term = t.term(st["rv"]["o"])
+                        # AddWithOverflow(<old>, cast(<inner call>(..)<Ok>.0))
+                        ok = term[0] == "proj" or term[0] == "bin"
+                        tt = term[1] if term[0] == "proj" else term
+                        inc = render(tt[3]) if tt[0] == "bin" and tt[1].startswith("Add") else ""
+                        ok = tt[0] == "bin" and re.fullmatch(r"u(32|64)\(%s\(self\.inner, .*\)<Ok>\.0\)" % re.escape(callee), inc) is not None
+                        rep.check(ok, "R4", "%s|accounting|%s" % (fmt_key(b.path), field), "%s advances by the count the inner %s returned" % (field, callee.rsplit("::", 1)[-1]),
+                                  "%s: %s advances by %s, not by what the inner call actually transferred (a short read/write desynchronises the entry)" % (b.path, field, inc[:120] or render(term)[:120]), "%s:%s" % (b.file, st.get("line")))
+            rep.check(n == 1, "R4", "%s|accounting-site|%s" % (fmt_key(b.path), field), "%s is advanced at one place" % field, "%s is assigned at %d places in %s" % (field, n, b.path), b.span)
 
     # ---- R5 trailer ------------------------------------------------------------------------------------------
     trl = [c for c in pd.calls() if c.decl.endswith("payload::trailer")]
